@@ -75,6 +75,9 @@ pub fn poll_hooks(ctx: &mut Ctx, case: &str) {
 
 /// Offer one raw model position: normalise, validate both ways, run the callback.
 pub fn offer(ctx: &mut Ctx, raw: &MPos, tag: &str, f: &mut PosFn) -> bool {
+    if ctx.miri_full() {
+        return false;
+    }
     let mp = raw.normalized();
     if !mp.is_valid() {
         ctx.feature("src_invalid_skipped");
